@@ -53,6 +53,8 @@ type Act struct {
 	frameMemo  *frameInfo
 	loopHead   map[*ssa.BasicBlock]*State
 	locks      []string // mutex addresses acquired by this function
+	ifaceCon   *Contract // interface contract this method implements (its ensures are obligations too)
+	ifaceParams map[string]Val
 	callPos  token.Pos
 }
 
@@ -333,6 +335,33 @@ func (a *Act) loopInvs(h *ssa.BasicBlock) []*Clause {
 		}
 	}
 	return out
+}
+
+// clauseEnv returns the environment for a clause: interface-contract clauses see the interface's parameter names.
+func (a *Act) clauseEnv(env *SpecEnv, c *Clause) *SpecEnv {
+	if a.ifaceCon == nil || a.ifaceParams == nil {
+		return env
+	}
+	isIface := false
+	for _, lst := range [][]*Clause{a.ifaceCon.Requires, a.ifaceCon.Ensures, a.ifaceCon.Modifies} {
+		for _, x := range lst {
+			if x == c {
+				isIface = true
+			}
+		}
+	}
+	if !isIface {
+		return env
+	}
+	n := *env
+	n.vars = make(map[string]Val, len(env.vars)+len(a.ifaceParams))
+	for k, v := range env.vars {
+		n.vars[k] = v
+	}
+	for k, v := range a.ifaceParams {
+		n.vars[k] = v
+	}
+	return &n
 }
 
 // autoInvs are invariants the engine supplies itself: range indices stay >= -1, and the function's frame
